@@ -242,9 +242,15 @@ type R = Result<(), (String, String)>;
 
 impl Exch {
     pub fn new(cfg: Arc<ExchCfg>) -> Result<Exch, String> {
+        Self::new_k(cfg).map_err(|(k, w)| format!("[{}] {}", k, w))
+    }
+
+    /// Like `new`, but a failing oracle on the canonical way to the start state is returned with its key.
+    pub fn new_k(cfg: Arc<ExchCfg>) -> Result<Exch, (String, String)> {
+        let prop = cfg.prop;
         let f = match &cfg.prep {
-            Some(p) => p()?,
-            None => cfg.req.build_prepare()?,
+            Some(p) => p().map_err(|e| (format!("{}:harness:init", prop), e))?,
+            None => cfg.req.build_prepare().map_err(|e| (format!("{}:harness:init", prop), e))?,
         };
         let start = cfg.start_at;
         let mut e = Exch {
@@ -266,7 +272,7 @@ impl Exch {
             followed: 0,
         };
         if let Some(st) = start {
-            e.fast_forward(st)?;
+            e.fast_forward_k(st)?;
         }
         Ok(e)
     }
